@@ -177,7 +177,9 @@ class FixedExtensionHeader (ExtensionHeader):
     """
     Unpacks a new instance of this class from a buffer
     """
-    if max_length is not None and (max_length - offset) < cls.LENGTH:
+    if max_length is not None and max_length < cls.LENGTH:
+      raise TruncatedException()
+    if len(raw) - offset < cls.LENGTH:
       raise TruncatedException()
 
     nh = struct.unpack_from("!B", raw, offset)[0]
@@ -347,10 +349,10 @@ class ipv6 (packet_base):
       return
 
     length = self.payload_length
-    if length > len(raw):
-      length = len(raw) # Clamp to what we've got
+    if length > len(raw) - offset:
+      length = len(raw) - offset # Clamp to what we've got after the header
       self.msg('(ipv6) warning IP packet data incomplete (%s of %s)'
-               % (len(raw), self.payload_length))
+               % (length, self.payload_length))
 
     while nht != ipv6.NO_NEXT_HEADER:
       c = _extension_headers.get(nht)
@@ -417,10 +419,14 @@ class ipv6 (packet_base):
     else:
       self.payload_length = len(payload)
 
+    # Extension headers follow the fixed header and count as payload
+    ehs = b''.join(eh.pack() for eh in self.extension_headers)
+    self.payload_length += len(ehs)
 
     r = struct.pack("!IHBB", vtcfl, self.payload_length, nht, self.hop_limit)
     r += self.srcip.raw
     r += self.dstip.raw
+    r += ehs
 
     return r
 
